@@ -98,6 +98,13 @@ def all_configs(ctx, nseeds):
         out.append(dict(base_cfg("NSGAII", "real", seed), variator="pcx3"))
         out.append(dict(base_cfg("SPEA2", "subset_str", seed), variator="mutation"))
         out.append(dict(base_cfg("GA", "subset_str", seed), variator="mutation", pop=3, off=5))
+        # bounded adaptive-grid archives: small capacity, 2-3 objectives, runs long enough that the archive is full and members
+        # are evicted; EVERY step boundary is a save point (these two algorithms are cheap)
+        out.append(dict(base_cfg("PESA2", "real", seed), capacity=6, nobjs=2, steps=ctx.scale(36, 60)))
+        out.append(dict(base_cfg("PESA2", "real", seed + 1), capacity=5, nobjs=3, steps=ctx.scale(36, 60)))
+        out.append(dict(base_cfg("PESA2", "integer", seed), capacity=4, nobjs=2, steps=ctx.scale(24, 40)))
+        out.append(dict(base_cfg("PAES", "real", seed), capacity=6, nobjs=2, steps=ctx.scale(70, 120)))
+        out.append(dict(base_cfg("PAES", "real", seed + 1), capacity=4, nobjs=3, steps=ctx.scale(70, 120)))
     return out
 
 
@@ -116,8 +123,8 @@ def short(cfg):
 def frame_check(ctx):
     findings, stats, files = c13_frame.scan_repo(C.REPO)
     ctx.coverage["frame_check"] = {"files_scanned": len(files), "stats": stats, "findings": findings[:20],
-                                   "allow_list": ["%s:%s — %s" % (k[0], k[1], v) for k, v in list(c13_frame.ALLOW_C.items()) + list(c13_frame.ALLOW_B.items())]}
-    ctx.obligation("frame:determinism(random module only; no order-sensitive set use; no id/hash/clock in logic; no module-level state) over %d files" % len(files),
+                                   "allow_list": ["%s:%s — %s" % (k[0], k[1], v) for k, v in list(c13_frame.ALLOW_C.items()) + list(c13_frame.ALLOW_B.items()) + list(c13_frame.ALLOW_E.items())]}
+    ctx.obligation("frame:determinism(random module only; no order-sensitive set use; no id/hash/clock in logic; no module-level state; no state stored into operator instances by evolve/mutate) over %d files" % len(files),
                    "frame", not findings, "; ".join("%s:%s %s [%s] %s" % (f["file"], f["line"], f["qualname"], f["rule"], f["what"]) for f in findings[:8]))
     ctx.count(len(files))
     return findings
@@ -187,12 +194,71 @@ def first_diff(a, b):
 
 
 # ----------------------------------------------------------------------------
+# (ii-b) history independence: the same seeded run after OTHER work in the same interpreter
+# ----------------------------------------------------------------------------
+def prelude_configs(seed):
+    """earlier, unrelated runs: every family of library-default operators (default variator / mutator of each variable type, the
+    shared default-argument selector, generator, DE, hypervolume fitness, UM of the restart extension) on LARGER problems"""
+    out = []
+    for alg, vt in (("NSGAII", "real"), ("ES", "real"), ("SMPSO", "real"), ("GDE3", "real"), ("IBEA", "real"), ("PAES", "real"),
+                    ("MOEAD", "real"), ("OMOPSO", "real"), ("NSGAII", "binary"), ("ES", "binary"), ("NSGAII", "integer"),
+                    ("NSGAII", "perm_int"), ("ES", "perm_str"), ("NSGAII", "subset_int"), ("ES", "subset_str"), ("SPEA2", "subset_str")):
+        out.append(dict(base_cfg(alg, vt, seed), big=True, pop=5 if alg not in ("NSGAIII", "PAES") else 1))
+    out.append(dict(base_cfg("EpsNSGAII", "real", seed), big=True, window=1))
+    return out
+
+
+def history_runs(ctx, tmp, cfgs, K, table, ref_hs):
+    """cfgs[i] was replayed in fresh interpreters (table[i][hash seed]); run it again after a prelude and after the other targets
+    of its chunk, in one interpreter, and compare with the fresh-process result"""
+    prelude = prelude_configs(ctx.seed * 31 + 7)
+    order = list(range(len(cfgs)))
+    ctx.rng.shuffle(order)
+    chunks = [order[i:i + 8] for i in range(0, len(order), 8)]
+
+    def one(item):
+        ci, idxs = item
+        return spawn({"job": "history", "prelude": prelude, "configs": [cfgs[i] for i in idxs], "K": K}, tmp, "hi_%d" % ci, str(3 + ci))
+    outs = pmap(one, list(enumerate(chunks)))
+    ndiff = 0
+    n = 0
+    for (ci, idxs), o in zip(enumerate(chunks), outs):
+        if "error" in o:
+            ctx.obligation("child-run:history(chunk=%d)" % ci, "harness", False, o["error"])
+            continue
+        for pos, (i, r) in enumerate(zip(idxs, o["runs"])):
+            fresh = table.get(i, {}).get(ref_hs)
+            if fresh is None or "error" in r or "error" in fresh:
+                continue
+            n += 1
+            ctx.count()
+            if r != fresh:
+                ndiff += 1
+                cfg = cfgs[i]
+                hist = prelude + [cfgs[j] for j in idxs[:pos]]
+                ctx.violation("result-depends-on-earlier-runs-in-the-process:%s:%s" % (cfg["alg"], cfg["vtype"]),
+                              "%s: the seeded run (library-default operators) gives a different result in an interpreter that earlier optimised other "
+                              "problems than in a fresh interpreter (nfe %s vs %s; first differing solution %s)" % (
+                                  short(cfg), r["sig"]["nfe"], fresh["sig"]["nfe"], first_diff(fresh["sig"]["result"], r["sig"]["result"])),
+                              {"kind": "history", "config": cfg, "K": K, "history": hist})
+            else:
+                ctx.mark("history|" + cfg_key(cfgs[i]))
+    ctx.coverage["history_independence"] = {"targets": n, "prelude_runs": len(prelude), "child_processes": len(chunks), "differing": ndiff,
+                                            "what": "each target = seeded run with library-default operators, executed after a prelude of %d runs on larger "
+                                                    "problems and after the other targets of its chunk, compared with the fresh-interpreter replay" % len(prelude)}
+
+
+# ----------------------------------------------------------------------------
 # (iii) save at every step boundary, load in a new process, continue
 # ----------------------------------------------------------------------------
 def split_runs(ctx, tmp, cfgs, K, boundaries_of, lits, replay_table=None, replay_index=None):
+    def steps_of(cfg):
+        return cfg.get("steps", K)
+
     def produce(item):
         i, cfg = item
-        return spawn({"job": "produce", "config": cfg, "K": K, "boundaries": boundaries_of(i, cfg), "dir": tmp, "tag": "c%d" % i}, tmp, "pr_%d" % i, "0")
+        return spawn({"job": "produce", "config": cfg, "K": steps_of(cfg), "boundaries": boundaries_of(i, cfg), "dir": tmp, "tag": "c%d" % i,
+                      "extend": 40 * max(1, cfg["pop"])}, tmp, "pr_%d" % i, "0")
     prods = pmap(produce, list(enumerate(cfgs)))
     resume_jobs = []
     hs_cycle = ["1", "2", str(ctx.rng.randrange(3, 4000000000)), "random"]
@@ -200,15 +266,18 @@ def split_runs(ctx, tmp, cfgs, K, boundaries_of, lits, replay_table=None, replay
         if "error" in pr:
             continue
         for sp in pr["splits"]:
-            resume_jobs.append((i, sp["k"], {"job": "resume", "file": sp["file"], "N2": sp["N2"], "disturb": ctx.rng.randrange(1, 10 ** 9)},
+            resume_jobs.append((i, (sp["k"], sp.get("ext", False)),
+                                {"job": "resume", "file": sp["file"], "N2": sp["N2"], "disturb": ctx.rng.randrange(1, 10 ** 9)},
                                 hs_cycle[(i + sp["k"]) % len(hs_cycle)]))
 
     def resume(j):
         i, k, job, hs = j
-        return spawn(job, tmp, "rs_%d_%d" % (i, k), hs)
+        return spawn(job, tmp, "rs_%d_%d_%d" % (i, k[0], int(k[1])), hs)
     resumed = pmap(resume, resume_jobs)
     by = {(i, k): (r, hs) for (i, k, _, hs), r in zip(resume_jobs, resumed)}
-    stats = {"configurations": len(cfgs), "steps_per_run": K, "splits": 0, "resume_processes": len(resume_jobs), "resume_differs": 0,
+    state_lost = []
+    stats = {"configurations": len(cfgs), "steps_per_run": K, "longest_run_steps": max([steps_of(c) for c in cfgs] + [0]),
+             "extended_search_splits": 0, "save_points_where_loaded_state_differs": 0, "splits": 0, "resume_processes": len(resume_jobs), "resume_differs": 0,
              "compose_differs_claimed": 0, "compose_differs_unclaimed": 0, "unclaimed_splits": 0, "rejected_inputs": 0,
              "cross_process_single_vs_replay_differs": 0}
     for i, (cfg, pr) in enumerate(zip(cfgs, prods)):
@@ -217,7 +286,7 @@ def split_runs(ctx, tmp, cfgs, K, boundaries_of, lits, replay_table=None, replay
                 stats["rejected_inputs"] += 1
                 continue
             ctx.violation("run-raised:%s:%s" % (cfg["alg"], cfg["vtype"]), "%s: %s" % (short(cfg), pr["error"]),
-                          {"kind": "split", "config": cfg, "K": K, "k": 1})
+                          {"kind": "split", "config": cfg, "K": steps_of(cfg), "k": 1})
             continue
         # the same seeded run in another process (the replay children) must agree with this one
         if replay_table is not None and replay_index is not None and cfg_key(cfg) in replay_index:
@@ -229,15 +298,23 @@ def split_runs(ctx, tmp, cfgs, K, boundaries_of, lits, replay_table=None, replay
                                   {"kind": "hashseed", "config": cfg, "K": K, "hashseeds": ["0", hs]})
                     break
         cl = claimed(cfg)
+        Kc = steps_of(cfg)
         for sp in pr["splits"]:
             k = sp["k"]
+            ext = sp.get("ext", False)
             stats["splits"] += 1
+            stats["extended_search_splits"] += 1 if ext else 0
             ctx.count()
-            rs, hs = by.get((i, k), ({"error": "no resume job"}, "?"))
+            rs, hs = by.get((i, (k, ext)), ({"error": "no resume job"}, "?"))
             if "error" in rs:
                 ctx.violation("resume-raised:%s:%s" % (cfg["alg"], cfg["vtype"]), "%s boundary %d: load/continue raised: %s" % (short(cfg), k, rs["error"]),
-                              {"kind": "split", "config": cfg, "K": K, "k": k})
+                              {"kind": "split", "config": cfg, "K": Kc, "k": k})
                 continue
+            if not ext:
+                lost = sorted(f for f in set(sp["at_save"]) | set(rs["at_load"]) if sp["at_save"].get(f) != rs["at_load"].get(f))
+                if lost or sp.get("roundtrip_lost"):
+                    stats["save_points_where_loaded_state_differs"] += 1
+                    state_lost.append("%s boundary %d: %s" % (short(cfg), k, ",".join(lost or sp["roundtrip_lost"])))
             if rs["loaded"] != sp["mem"] or rs["sizes2"] != sp["sizes2"]:
                 stats["resume_differs"] += 1
                 ctx.violation("resume-differs-from-in-memory-continuation:%s:%s" % (cfg["alg"], cfg["vtype"]),
@@ -245,7 +322,9 @@ def split_runs(ctx, tmp, cfgs, K, boundaries_of, lits, replay_table=None, replay
                               "run(%d): nfe %s vs in-memory %s; first differing solution %s" % (
                                   short(cfg), sp["N1"], k, hs, sp["N2"], rs["loaded"]["nfe"], sp["mem"]["nfe"],
                                   first_diff(sp["mem"]["result"], rs["loaded"]["result"])),
-                              {"kind": "split", "config": cfg, "K": K, "k": k})
+                              {"kind": "split", "config": cfg, "K": Kc, "k": k})
+            if ext:
+                continue
             same_as_single = sp["mem"] == pr["single"] and sp["sizes1"] + sp["sizes2"] == pr["single_sizes"]
             if cl and not same_as_single:
                 stats["compose_differs_claimed"] += 1
@@ -253,7 +332,7 @@ def split_runs(ctx, tmp, cfgs, K, boundaries_of, lits, replay_table=None, replay
                               "%s: run(%d) then run(%d) differs from the single run(%d): steps %r + %r vs %r; first differing solution %s" % (
                                   short(cfg), sp["N1"], sp["N2"], pr["T"], sp["sizes1"], sp["sizes2"], pr["single_sizes"],
                                   first_diff(pr["single"]["result"], sp["mem"]["result"])),
-                              {"kind": "split", "config": cfg, "K": K, "k": k})
+                              {"kind": "split", "config": cfg, "K": Kc, "k": k})
             if not cl:
                 stats["unclaimed_splits"] += 1
                 if not same_as_single:
@@ -266,6 +345,9 @@ def split_runs(ctx, tmp, cfgs, K, boundaries_of, lits, replay_table=None, replay
                 ctx.sample({"config": cfg, "split_after_step": k, "N1": sp["N1"], "N2": sp["N2"], "steps_call1": sp["sizes1"], "steps_call2": sp["sizes2"],
                             "steps_single_run": pr["single_sizes"], "composition_claimed": cl, "resumed_equals_in_memory": rs["loaded"] == sp["mem"],
                             "result_size": len(sp["mem"]["result"]), "loader_hash_seed": hs})
+    # what load_state hands back must be what save_state saw (population, archive contents, grid bounds and densities, counters)
+    ctx.obligation("state-after-load-equals-state-at-save(%d save points)" % (stats["splits"] - stats["extended_search_splits"]), "correspondence",
+                   not state_lost, "; ".join(state_lost[:6]))
     return stats
 
 
@@ -281,15 +363,17 @@ def run(ctx):
         K = ctx.scale(5, 8)
         cfgs = all_configs(ctx, ctx.scale(1, 2))
         hashseeds = ["0", "1", "2", str(ctx.rng.randrange(3, 4000000000)), "random"]
-        table = replay_hashseeds(ctx, tmp, cfgs, K, hashseeds)
-        index = {cfg_key(c): i for i, c in enumerate(cfgs)}
+        rcfgs = [c for c in cfgs if "steps" not in c]
+        table = replay_hashseeds(ctx, tmp, rcfgs, K, hashseeds)
+        index = {cfg_key(c): i for i, c in enumerate(rcfgs)}
+        history_runs(ctx, tmp, rcfgs, K, table, hashseeds[0])
         # quick: every algorithm with a rotating subset of its variable types (+ all variants); thorough: everything
         if ctx.thorough:
             sel = cfgs
         else:
             sel = []
             for alg in algos.ALGORITHMS:
-                mine = [c for c in cfgs if c["alg"] == alg and len(c) == 5]
+                mine = [c for c in rcfgs if c["alg"] == alg and len(c) == 5]
                 rot = ctx.seed % len(mine)
                 pick = [mine[rot], mine[(rot + 3) % len(mine)], mine[(rot + 5) % len(mine)]]
                 for c in pick:
@@ -297,7 +381,7 @@ def run(ctx):
                         sel.append(c)
             sel += [c for c in cfgs if len(c) > 5]
         lits = []
-        stats = split_runs(ctx, tmp, sel, K, lambda i, cfg: list(range(0, K + 1)), lits, table, index)
+        stats = split_runs(ctx, tmp, sel, K, lambda i, cfg: list(range(0, cfg.get("steps", K) + 1)), lits, table, index)
         ctx.coverage["save_load"] = stats
         ctx.coverage["traces_validated_against_impl"] = len(lits)
         ctx.coverage["not_claimed"] = ("the JSON (jsonpickle) state format (suite's always-failing set); composition for eps-NSGA-II and user fixed-frequency "
@@ -335,9 +419,18 @@ def replay(ctx, data):
     try:
         if rp.get("kind") == "hashseed":
             replay_hashseeds(ctx, tmp, [rp["config"]], rp["K"], list(rp["hashseeds"]))
+        elif rp.get("kind") == "history":
+            cfg = rp["config"]
+            fresh = spawn({"job": "replay", "configs": [cfg], "K": rp["K"]}, tmp, "fr", "0")
+            after = spawn({"job": "history", "prelude": rp["history"], "configs": [cfg], "K": rp["K"]}, tmp, "hi", "0")
+            ctx.count(2)
+            if "error" in fresh or "error" in after or fresh["runs"][0] != after["runs"][0]:
+                ctx.violation(data.get("key", "replay"), "replay: %s after %d earlier runs differs from the fresh-interpreter run (%s)" % (
+                    short(cfg), len(rp["history"]), fresh.get("error") or after.get("error") or
+                    first_diff(fresh["runs"][0].get("sig", {}).get("result", []), after["runs"][0].get("sig", {}).get("result", []))), rp)
         elif rp.get("kind") == "split":
             lits = []
-            st = split_runs(ctx, tmp, [rp["config"]], rp["K"], lambda i, cfg: [rp["k"]], lits)
+            st = split_runs(ctx, tmp, [dict(rp["config"], steps=rp["K"])], rp["K"], lambda i, cfg: [rp["k"]], lits)
             ctx.coverage["save_load"] = st
         else:
             run(ctx)
